@@ -24,50 +24,73 @@ def run(tier, replay=None):
     d = vlib.rundir("c17")
     try:
         exe = vlib.build_cxx("asm_case", ["asm_case.cpp"])
-        cases, res, recs, keep, notes, tdir = asmlib.layout_pipeline(tier, d, vlib.rng(17), exe)
+        st = {"ok": 0, "nlines": 0, "n": 0, "canary": False}
+        samples = []
+
+        def judge(ids, recs, notes, tag):
+            extra = []
+            if not st["canary"]:
+                # canary: shift one listed offset
+                src = next((r for r in recs if r['haslst'] and len(r['lst']) > 2), None)
+                if src is not None:
+                    can = json.loads(json.dumps(src)); can['id'] = 'canary'
+                    can['lst'][-1]['off'] += 1
+                    extra = [can]
+            verd = asmlib.validate(recs + extra, d, tag)
+            if extra:
+                if verd[-1]['listing'] == "" or verd[-1]['decode'] == "":
+                    raise vlib.MachineryError("canary listing accepted: binding is not live")
+                verd = verd[:-1]; st["canary"] = True
+            st["n"] += len(recs)
+            for cid, rec, note, v in zip(ids, recs, notes, verd):
+                if note:
+                    chk.violation("listing:%s:%s" % (family(cid), re.sub(r'\d+', 'N', note)), "listing of %s: %s" % (cid, note),
+                                  {"record.json": json.dumps(rec)})
+                    continue
+                # two independent judgements: the listing decoded on its own terms (the property as stated), and the listing
+                # against the walk of the binary along the SOURCE directives (a walk failure there is C05's business)
+                if v['decode'] != "":
+                    chk.violation("listing:%s:%s" % (family(cid), re.sub(r'\d+', 'N', v['decode'])),
+                                  "listing of %s: %s" % (cid, v['decode']), {"record.json": json.dumps(rec)})
+                    continue
+                if v['listing'] == "" or v['listing'].startswith("walk:"):
+                    if v['listing'] == "":
+                        st["ok"] += 1; st["nlines"] += len(rec['lst'])
+                    continue
+                chk.violation("listing:%s:%s" % (family(cid), re.sub(r'\d+', 'N', v['listing'])),
+                              "listing of %s disagrees with its binary: %s" % (cid, v['listing']), {"record.json": json.dumps(rec)})
+            if len(samples) < 2 and len(recs) > 2:
+                samples.append({"id": ids[2], "first_lines": recs[2]['lst'][:3]})
+
+        tdir = None; k = 0
+        for cases, res, recs, keep, notes, tdir in asmlib.layout_chunks(tier, d, vlib.rng(17), exe, 10 ** 9 if tier == "quick" else 1500000):
+            if recs:
+                judge([c['id'] for c in keep], recs, notes, "c17v%d" % k); k += 1
         xr = asmlib.xcmp_listing_records(d, tdir, [s for s in corpus.repo_sources_x() if tier != "quick" or not s.endswith("xhexb.x")])
-        ids = [c['id'] for c in keep]
+        xids, xrecs, xnotes = [], [], []
         for cid, rec, note in xr:
             if rec is None:
                 chk.violation("xcmp-S-failed:" + cid, note)
                 continue
-            recs.append(rec); ids.append(cid); notes.append(note)
-        # canary: shift one listed offset
-        can = json.loads(json.dumps(next(r for r in recs if r['haslst'] and len(r['lst']) > 2))); can['id'] = 'canary'
-        can['lst'][-1]['off'] += 1
-        verd = asmlib.validate(recs + [can], d, "c17v")
-        if verd[-1]['listing'] == "" or verd[-1]['decode'] == "":
-            raise vlib.MachineryError("canary listing accepted: binding is not live")
-        ok = 0; nlines = 0
-        for cid, rec, note, v in zip(ids, recs, notes, verd[:-1]):
-            if note:
-                chk.violation("listing:%s:%s" % (family(cid), re.sub(r'\d+', 'N', note)), "listing of %s: %s" % (cid, note),
-                              {"record.json": json.dumps(rec)})
-                continue
-            # two independent judgements: the listing decoded on its own terms (the property as stated), and the listing
-            # against the walk of the binary along the SOURCE directives (a walk failure there is C05's business)
-            if v['decode'] != "":
-                chk.violation("listing:%s:%s" % (family(cid), re.sub(r'\d+', 'N', v['decode'])),
-                              "listing of %s: %s" % (cid, v['decode']), {"record.json": json.dumps(rec)})
-                continue
-            if v['listing'] == "" or v['listing'].startswith("walk:"):
-                if v['listing'] == "":
-                    ok += 1; nlines += len(rec['lst'])
-                continue
-            chk.violation("listing:%s:%s" % (family(cid), re.sub(r'\d+', 'N', v['listing'])),
-                          "listing of %s disagrees with its binary: %s" % (cid, v['listing']), {"record.json": json.dumps(rec)})
+            xrecs.append(rec); xids.append(cid); xnotes.append(note)
+        if xrecs:
+            judge(xids, xrecs, xnotes, "c17x")
+            samples.append({"id": xids[-1], "lines": len(xrecs[-1]['lst'])})
+        if not st["canary"]:
+            raise vlib.MachineryError("no record to build the canary from")
+        ok, nlines = st["ok"], st["nlines"]
         chk.add("states", 1); chk.add("transitions", 1)
-        chk.set("listings_checked", len(recs))
+        chk.set("listings_checked", st["n"])
         chk.set("listings_ok", ok)
         chk.set("listing_lines_checked", nlines)
         chk.set("xcmp_listings", [c for c, _, _ in xr])
         chk.set("traces_validated_against_impl", ok)
-        chk.set("evaluations", len(recs))
+        chk.set("evaluations", st["n"])
         chk.set("distinct_nontrivial", ok)
         chk.set("rule", "one case per assembled program (C05 families + shipped .S + xcmp -S of tests/x); non-trivial = listing parsed, "
                         "same directives as the source, every line compared with the walked binary")
-        chk.sample({"id": ids[2], "first_lines": recs[2]['lst'][:3]})
-        chk.sample({"id": ids[-1], "lines": len(recs[-1]['lst'])})
+        for smp in samples:
+            chk.sample(smp)
         chk.assumptions += ["states/transitions are nominal: this check is pure trace validation (one TLC evaluation per chunk)",
                             "listing text is parsed by lib/asmlib.parse_listing (regex on hexasm's fixed format)"]
         chk.vacuity(ok < 500, "too few listings validated")
